@@ -7,7 +7,8 @@
 (* builds each one from real Node objects, runs the three real round trips *)
 (* and dumps what came back; TLC evaluates Post on every (case, result).   *)
 (*                                                                         *)
-(* A "plain" case is a DAG with unique node names n1..nN.  Node j has an   *)
+(* A "plain" case is a DAG with unique node names (n1..nN, or names that   *)
+(* coincide with output names, input names and keys).  Node j has an       *)
 (* output list taken from OutKinds (no output at all, the default output   *)
 (* "0", named outputs, two outputs, default+named), for each input name    *)
 (* in INames either nothing or one output of an earlier node, and a        *)
@@ -25,7 +26,12 @@ CONSTANTS MaxN,        \* plain graphs have 0..MaxN nodes
           MaxRichN,    \* graphs with up to MaxRichN nodes draw from all five output lists, larger ones from three
           MaxOps       \* fluent programs have 0..MaxOps steps after from_source
 
-Name(i) == "n" \o ToString(i)
+\* node naming schemes: 0 = names of their own (n1, n2, n3); 1.. = names taken from the OTHER name spaces of a serialised
+\* graph - output names ("0", "a", "b", rotated, so that each node, terminal ones included, is once named like an
+\* output some node may consume), input names and the keys of a serialised node
+Schemes == IF MaxRichN >= 3 THEN << <<"a", "b", "0">>, <<"0", "a", "b">>, <<"b", "0", "a">>, <<"y", "inputs", "x">> >>
+           ELSE << <<"a", "b", "0">>, <<"0", "a", "b">>, <<"y", "inputs", "x">> >>
+Name(sch, i) == IF sch = 0 THEN "n" \o ToString(i) ELSE Schemes[sch][i]
 INames == {"x", "y"}
 
 \* ---------------------------------------------------------------- domain
@@ -57,9 +63,11 @@ Srcs(outs, j) == {<<i, outs[i][k]>> : <<i, k>> \in {p \in (1..(j - 1)) \X (1..2)
 RECURSIVE InsUpTo(_, _)
 InsUpTo(outs, j) == IF j = 0 THEN {<<>>}
                     ELSE {Append(s, f) : s \in InsUpTo(outs, j - 1), f \in [INames -> Srcs(outs, j) \cup {NoSrc}]}
-Offsets(n) == IF n = 0 THEN {0} ELSE IF n <= MaxPayN THEN 0..(NP - 1) ELSE {0, 5}
-PlainOf(n) == UNION {{[kind |-> "plain", n |-> n, outs |-> outs, ins |-> ins, off |-> off]
-                        : ins \in InsUpTo(outs, n), off \in Offsets(n)} : outs \in [1..n -> OutKinds(n)]}
+Offsets(n) == IF n = 0 THEN {0} ELSE IF n <= MaxPayN THEN 0..(NP - 1) ELSE IF n <= MaxRichN THEN {0, 5} ELSE {0}
+\* <<naming scheme, payload rotation>>: payload rotations under scheme 0, every other scheme with rotation 0
+Variants(n) == {<<0, off>> : off \in Offsets(n)} \cup (IF n = 0 THEN {} ELSE {<<sch, 0>> : sch \in DOMAIN Schemes})
+PlainOf(n) == UNION {{[kind |-> "plain", n |-> n, outs |-> outs, ins |-> ins, off |-> v[2], sch |-> v[1]]
+                        : ins \in InsUpTo(outs, n), v \in Variants(n)} : outs \in [1..n -> OutKinds(n)]}
 Plain == UNION {PlainOf(n) : n \in 0..MaxN}
 
 RECURSIVE SeqsUpTo(_, _)
@@ -69,8 +77,8 @@ Fluent == {[kind |-> "fluent", n |-> n, yields |-> y, ops |-> ops] : n \in 1..3,
 
 \* the domain is Plain followed by Fluent (two record shapes, kept apart)
 
-NodeJson(c, j) == [name |-> Name(j), outs |-> c.outs[j],
-                   inputs |-> SetToSeq({<<x, Name(c.ins[j][x][1]), c.ins[j][x][2]>> : x \in {y \in INames : c.ins[j][y] # NoSrc}}),
+NodeJson(c, j) == [name |-> Name(c.sch, j), outs |-> c.outs[j],
+                   inputs |-> SetToSeq({<<x, Name(c.sch, c.ins[j][x][1]), c.ins[j][x][2]>> : x \in {y \in INames : c.ins[j][y] # NoSrc}}),
                    payload |-> PayloadOf(c.off, j).py, jsonok |-> PayloadOf(c.off, j).json]
 CaseJson(c) == IF c.kind = "plain" THEN [kind |-> "plain", nodes |-> [j \in 1..c.n |-> NodeJson(c, j)]]
                ELSE [kind |-> "fluent", n |-> c.n, yields |-> c.yields, ops |-> c.ops]
